@@ -9,8 +9,12 @@ Class AField := {
   div : F -> F -> F; inv : F -> F;
   Ffield : field_theory zero one add mul sub opp div inv (@eq F);
   F_id : forall x y : F, mul x y = zero -> x = zero \/ y = zero;
-  F_dec : forall x y : F, {x = y} + {x <> y}
+  feqb : F -> F -> bool;
+  feqb_spec : forall x y : F, reflect (x = y) (feqb x y)
 }.
+
+Definition F_dec {AF : AField} (x y : F) : {x = y} + {x <> y} :=
+  match feqb_spec x y with ReflectT _ e => left e | ReflectF _ n => right n end.
 
 Section Inst.
   Context {AF : AField}.
@@ -42,3 +46,33 @@ Section Inst.
   Global Instance Fid : @Integral_domain F zero one add mul sub opp (@eq F) Fops Fring Fcring.
   Proof. constructor. exact F_id. destruct Ffield; auto. Qed.
 End Inst.
+
+(* generic helpers over any AField *)
+Section Generic.
+  Context {AF : AField}.
+  Add Field Ffg : Ffield.
+  Fixpoint fof_pos (p : positive) : F :=
+    match p with
+    | xH => one
+    | xO p' => let y := fof_pos p' in add y y
+    | xI p' => let y := fof_pos p' in add one (add y y)
+    end.
+  Definition fofZ (z : Z) : F :=
+    match z with Z0 => zero | Zpos p => fof_pos p | Zneg p => opp (fof_pos p) end.
+  Fixpoint fpow_pos (x : F) (p : positive) : F :=
+    match p with
+    | xH => x
+    | xO p' => let y := fpow_pos x p' in mul y y
+    | xI p' => let y := fpow_pos x p' in mul x (mul y y)
+    end.
+  Definition fpow (x : F) (e : Z) : F :=
+    match e with Z0 => one | Zpos p => fpow_pos x p | Zneg _ => one end.
+  Definition two : F := add one one.
+  Lemma fofZ_2 : fofZ 2 = two. Proof. reflexivity. Qed.
+  Lemma fofZ_4 : fofZ 4 = mul two two. Proof. cbn. unfold two. ring. Qed.
+  Lemma feqb_true x y : feqb x y = true <-> x = y.
+  Proof. destruct (feqb_spec x y); split; intro; try assumption; try reflexivity; try discriminate; contradiction. Qed.
+  Lemma feqb_false x y : feqb x y = false <-> x <> y.
+  Proof. destruct (feqb_spec x y); split; intro; try assumption; try reflexivity; try discriminate; try contradiction. Qed.
+  Lemma feqb_refl x : feqb x x = true. Proof. apply feqb_true. reflexivity. Qed.
+End Generic.
